@@ -236,6 +236,7 @@ pub fn run(ctx: &mut Ctx) {
     }
     crate::spaces::render_probes(ctx, &["missing", "missing_some"]);
     crate::spaces::width_probes(ctx);
+    crate::spaces::sweep::length_sweep(ctx);
     crate::spaces::type_grid_probes(ctx, &["missing", "missing_some"]);
     crate::spaces::depth_probes(ctx);
 }
